@@ -330,6 +330,20 @@ Theorem c07_add_ents_iterated_twice_refuted :
   ¬ Inv ascii_fold (ae_run ascii_fold add_ents_twice [1] true st0).
 Proof. exact add_ents_twice_refuted. Qed.
 
+(** Round 5, seeded fault c07_7: membership in the map read from a flag cached on the entity object ([self._in_map],
+    kept by add_ent / remove_ent but not by add_ents) instead of the scan [self in self.map.entities].  Such a flag
+    is state the model does not have: the translator emits the condition [MCCached], which no fact decides; the state
+    census [prog_stateless] and the path obligations of both indexed keys fail, and for the value the flag has after
+    add_ents a re-classed entity is in no class set. *)
+Theorem c07_setitem_cached_membership_flag_refuted :
+  prog_stateless maint_today = true ∧ prog_stateless maint_cached_flag = false ∧
+  maint_classname_ok maint_cached_flag = false ∧ maint_targetname_ok maint_cached_flag = false ∧
+  maint_other_ok maint_cached_flag = true ∧
+  let st0 := run ascii_fold [NewEnt [(cn, [97]%N)]; AddEnts [1]] init in
+  let r := set_item_pg ascii_fold setitem_shape_today maint_cached_flag 2 1 cn [98]%N st0 in
+  Inv ascii_fold st0 ∧ r.2 = 0 ∧ ents r.1 = [1] ∧ keys_of r.1 1 = [(cn, [98]%N)] ∧ ¬ Inv ascii_fold r.1.
+Proof. exact maint_cached_flag_refuted. Qed.
+
 (** _remove_copyset as written (round 3): every shape of the helper that passes the four named obligations (the set is
     found without raising and a missing set means nothing to do; the entity is discarded, not removed; the other
     members stay; a set that became empty is dropped) is the model's [ix_remove] — the function every removal of the
